@@ -19,7 +19,7 @@ UTYPES = ["AttestationData", "VersionedProposal", "VersionedAggregatedAttestatio
           "SyncContributions", "SyncContribution"]
 SHAPE = {"B": "SB", "V": "SV", "Att": "SAtt", "A": "SA"}
 
-HEADER = """From Coq Require Import List NArith Bool String.
+HEADER = """From Coq Require Import List NArith Bool String Uint63.
 From Charon Require Import Codec.Envelope Codec.EnvelopeCorr.
 Import ListNotations.
 Local Open Scope string_scope.
@@ -29,6 +29,15 @@ Local Open Scope N_scope.
 
 def b(x):
     return "true" if x else "false"
+
+
+def pack(hx):
+    """hex string -> Coq [packed] literal: 7 bytes per primitive 63-bit word, little-endian in the word"""
+    raw = bytes.fromhex(hx)
+    words = []
+    for i in range(0, len(raw), 7):
+        words.append("0x%x" % int.from_bytes(raw[i:i + 7], "little"))
+    return "{| p_len := %d; p_words := [%s]%%uint63 |}" % (len(raw), "; ".join(words))
 
 
 def expect_term(e):
@@ -49,8 +58,10 @@ def ecases_v(cs):
     rows = []
     for c in cs:
         orc = "[" + "; ".join("(%d, %s, %d, %d)" % (o[0], b(o[1]), o[2], o[3]) for o in (c["oracle"] or [])) + "]"
-        rows.append("{| e_id := %d%%nat; e_shape := %s; e_bytes := \"%s\"; e_oracle := %s; e_expect := %s; e_pstart_known := %s; e_inner := \"%s\"; e_reenc := \"%s\" |}" % (
-            c["id"], SHAPE[c["shape"]], c["hex"], orc, expect_term(c["expect"]), b(c["expect"]["pstart_known"]), c["inner"], c["reenc"]))
+        inner = "None" if c["inner_is_suffix"] or not c["inner"] else "(Some %s)" % pack(c["inner"])
+        reenc = "None" if c["reenc_is_input"] or not c["reenc"] else "(Some %s)" % pack(c["reenc"])
+        rows.append("{| e_id := %d; e_shape := %s; e_bytes := %s; e_oracle := %s; e_expect := %s; e_pstart_known := %s; e_inner := %s; e_reenc := %s |}" % (
+            c["id"], SHAPE[c["shape"]], pack(c["hex"]), orc, expect_term(c["expect"]), b(c["expect"]["pstart_known"]), inner, reenc))
     return HEADER + "Definition cases : list ecase := [\n" + ";\n".join(rows) + "\n].\n" + \
         "Definition mism := Eval vm_compute in ecases_mismatch cases.\nPrint mism.\n"
 
@@ -62,33 +73,33 @@ def dcases_v(cs):
         if c["signed"]:
             orc = "[" + "; ".join("(T%s, %s, %s, %s)" % (t, b(c["oracle"][t][0]), b(c["oracle"][t][1]), b(c["oracle"][t][2])) for t in STYPES) + "]"
             exp = "None" if c["expect"] in ("", "PANIC") else "(Some T%s)" % c["expect"]
-            srows.append("{| s_id := %d%%nat; s_duty := %s; s_prefix := \"%s\"; s_oracle := %s; s_expect := %s |}" % (c["id"], duty, c["prefix"], orc, exp))
+            srows.append("{| s_id := %d; s_duty := %s; s_prefix := %s; s_oracle := %s; s_expect := %s |}" % (c["id"], duty, pack(c["prefix"]), orc, exp))
         else:
             orc = "[" + "; ".join("(U%s, %s, %s, %s)" % (t, b(c["oracle"][t][0]), b(c["oracle"][t][1]), b(c["oracle"][t][2])) for t in UTYPES) + "]"
             exp = "None" if c["expect"] in ("", "PANIC") else "(Some U%s)" % c["expect"]
-            urows.append("{| u_id := %d%%nat; u_duty := %s; u_prefix := \"%s\"; u_oracle := %s; u_expect := %s |}" % (c["id"], duty, c["prefix"], orc, exp))
+            urows.append("{| u_id := %d; u_duty := %s; u_prefix := %s; u_oracle := %s; u_expect := %s |}" % (c["id"], duty, pack(c["prefix"]), orc, exp))
     return HEADER + "Definition scases : list scase := [\n" + ";\n".join(srows) + "\n].\n" + \
         "Definition ucases : list ucase := [\n" + ";\n".join(urows) + "\n].\n" + \
-        "Definition dmism := Eval vm_compute in (flat_map check_scase scases ++ flat_map check_ucase ucases).\nPrint dmism.\n"
+        "Definition dmism := Eval vm_compute in (flat_map check_scase scases ++ flat_map check_ucase ucases)%list.\nPrint dmism.\n"
 
 
 def setcases_v(cs):
     rows = []
     for c in cs:
-        rows.append("{| t_id := %d%%nat; t_keys_inserted := [%s]; t_keys_wire := [%s] |}" % (
-            c["id"], "; ".join('"%s"' % k for k in c["inserted"]), "; ".join('"%s"' % k for k in c["wire"])))
+        rows.append("{| t_id := %d; t_keys_inserted := [%s]; t_keys_wire := [%s] |}" % (
+            c["id"], "; ".join(pack(k) for k in c["inserted"]), "; ".join(pack(k) for k in c["wire"])))
     return HEADER + "Definition tcases : list setcase := [\n" + ";\n".join(rows) + "\n].\n" + \
         "Definition smism := Eval vm_compute in flat_map check_setcase tcases.\nPrint smism.\n"
 
 
 def nums(term):
-    return [int(x) for x in re.findall(r"(\d+)%nat", term or "")]
+    return [int(x) for x in re.findall(r"(\d+)", term or "")]
 
 
-def shard(cs, max_n=1000, max_hex=1200000):
+def shard(cs, max_n=1000, max_hex=3000000):
     cur, size = [], 0
     for c in cs:
-        w = len(c.get("hex", "")) + len(c.get("inner", "")) + len(c.get("reenc", ""))
+        w = len(c.get("hex", "")) + (0 if c.get("inner_is_suffix") else len(c.get("inner", ""))) + (0 if c.get("reenc_is_input") else len(c.get("reenc", "")))
         if cur and (len(cur) >= max_n or size + w > max_hex):
             yield cur
             cur, size = [], 0
@@ -151,7 +162,7 @@ def main():
         if term is None:
             R.broke("correspondence:no result printed by cases_C14_env_%d" % i, out2[-1000:])
             continue
-        for cid, what in re.findall(r"\((\d+)%nat, (\d+)\)", term):
+        for cid, what in re.findall(r"\((\d+), (\d+)\)", term):
             c = byid[int(cid)]
             n_rej += 1
             if n_rej <= 8:
